@@ -165,11 +165,35 @@ func result(o *d2graph.Object) map[string]any {
 		"inner": []string{hl.Rat(ib.TopLeft.X), hl.Rat(ib.TopLeft.Y), hl.Rat(ib.Width), hl.Rat(ib.Height)}, "lp": lp}
 }
 
-func runUnit(c *hl.Ctx, text string) {
+// runUnit: `api` (object id → [width, height], 0 = leave alone) sets WidthAttr / HeightAttr directly on the d2graph
+// objects after compilation — the API path (d2oracle, library users), which is not subject to the compiler's
+// "width and height must be equal for square/circle" validation.
+func runUnit(c *hl.Ctx, text string, api map[string][2]int) {
+	in := func() map[string]any {
+		m := map[string]any{"text": text}
+		if api != nil {
+			a := map[string]any{}
+			for k, v := range api {
+				a[k] = []int{v[0], v[1]}
+			}
+			m["api"] = a
+		}
+		return m
+	}
 	g, _, err := d2compiler.Compile("", strings.NewReader(text), nil)
 	if err != nil {
-		c.Emit(map[string]any{"k": "unit", "in": map[string]any{"text": text}, "out": map[string]any{"err": err.Error()}, "triv": true})
+		c.Emit(map[string]any{"k": "unit", "in": in(), "out": map[string]any{"err": err.Error()}, "triv": true})
 		return
+	}
+	for _, o := range g.Objects {
+		if d, ok := api[o.AbsID()]; ok {
+			if d[0] != 0 {
+				o.WidthAttr = &d2graph.Scalar{Value: strconv.Itoa(d[0])}
+			}
+			if d[1] != 0 {
+				o.HeightAttr = &d2graph.Scalar{Value: strconv.Itoa(d[1])}
+			}
+		}
 	}
 	oc := hl.Guard(func() { err = g.SetDimensions(nil, geoutil.Ruler(), nil, nil) })
 	if oc != "ok" || err != nil {
@@ -177,15 +201,47 @@ func runUnit(c *hl.Ctx, text string) {
 		if err != nil {
 			e = err.Error()
 		}
-		c.Emit(map[string]any{"k": "unit", "in": map[string]any{"text": text}, "out": map[string]any{"err": e}})
+		c.Emit(map[string]any{"k": "unit", "in": in(), "out": map[string]any{"err": e}})
 		return
 	}
 	for _, o := range g.Objects {
 		if len(o.ChildrenArray) > 0 {
 			continue
 		}
-		c.Emit(map[string]any{"k": "unit", "in": map[string]any{"text": text, "obj": observe(o)}, "out": result(o)})
+		m := in()
+		m["obj"] = observe(o)
+		c.Emit(map[string]any{"k": "unit", "in": m, "out": result(o)})
 	}
+}
+
+// genAPI picks explicit sizes to set through the API: unequal values in both orders, also on squares and circles
+func genAPI(r *rand.Rand, c *hl.Ctx, text string) map[string][2]int {
+	api := map[string][2]int{}
+	for i := 0; i < 8; i++ {
+		id := fmt.Sprintf("o%d", i)
+		if !strings.Contains(text, id+": {") || r.Intn(3) == 0 {
+			continue
+		}
+		w, h := 5+r.Intn(500), 5+r.Intn(400)
+		switch r.Intn(6) {
+		case 0:
+			h = w + 1 + r.Intn(200)
+		case 1:
+			w = h + 1 + r.Intn(200)
+		case 2:
+			w = 0
+		case 3:
+			h = 0
+		}
+		api[id] = [2]int{w, h}
+		if strings.Contains(text, id+": {\n  shape: square") || strings.Contains(text, id+": {\n  shape: circle") {
+			if w != 0 && h != 0 && w != h {
+				c.Count("api:square-or-circle-unequal")
+			}
+		}
+		c.Count("api:override")
+	}
+	return api
 }
 
 func runE2E(c *hl.Ctx, text string) {
@@ -217,13 +273,26 @@ func run(c *hl.Ctx) error {
 		if cs["k"] == "e2e" {
 			runE2E(c, in["text"].(string))
 		} else {
-			runUnit(c, in["text"].(string))
+			var api map[string][2]int
+			if a, ok := in["api"].(map[string]any); ok {
+				api = map[string][2]int{}
+				for k, v := range a {
+					p := v.([]any)
+					api[k] = [2]int{int(p[0].(float64)), int(p[1].(float64))}
+				}
+			}
+			runUnit(c, in["text"].(string), api)
 		}
 		return nil
 	}
 	r := c.Rand()
-	for i := c.Pick(2500, 40000); i > 0; i-- {
-		runUnit(c, genText(r, c))
+	for i := c.Pick(1800, 30000); i > 0; i-- {
+		runUnit(c, genText(r, c), nil)
+	}
+	// API path: explicit sizes set on the d2graph objects, incl. unequal ones on squares and circles
+	for i := c.Pick(700, 10000); i > 0; i-- {
+		t := genText(r, c)
+		runUnit(c, t, genAPI(r, c, t))
 	}
 	for i := c.Pick(60, 600); i > 0; i-- {
 		c.Count("e2e:dagre")
